@@ -114,7 +114,7 @@ class allocate:
         }
     }
     properties = ["C04", "C12"]
-    clause_props = {"first_fit": ["C12"], "grow_only_if_needed": ["C12"], "recursion": ["C12"],
+    clause_props = {"first_fit": ["C12"], "grow_only_if_needed": ["C12"], "recursion": ["C12"], "nofit_before": ["C12"],
                     "aligned": ["C04"], "in_bounds": ["C04"], "new_vs_live": ["C04"], "new_vs_free": ["C04"], "bytes_kept": ["C04"]}
 
 
@@ -137,7 +137,8 @@ class free:
     ]
     raises = {}
     properties = ["C04", "C12"]
-    clause_props = {"reusable": ["C12"], "IndexError": ["C12"]}
+    # first entry = owner of the clause (DESIGN 2.8): the coalescing bookkeeping belongs to C12, C04 only shares it
+    clause_props = {"reusable": ["C12"], "IndexError": ["C12"], "N_last": ["C12", "C04"], "freed_somewhere": ["C12"]}
     loops = {
         0: {"invariant": [
             ("not_found_yet", "forall(0, _i0, lambda j: offset > _it0[j].start)"),
